@@ -1,5 +1,6 @@
 import Bxh.Model.Mempool
 import Bxh.Proofs.PoolHeld
+import Bxh.Proofs.PoolReady
 /-!
 # C19 — the pool neither loses accepted transactions nor misreports its content
 Theorems about `evict`, `commit`, `getTx` of `Bxh.Mempool`
@@ -236,5 +237,49 @@ example :
     KV.get p.hashMap "h1" = some ("a", 0) ∧
     KV.get (insertTxs p [{ acct := "a", nonce := 0, hash := "h9", ts := 2 }] 1).hashMap "h1" = none ∧
     KV.get (insertTxs p [{ acct := "a", nonce := 1, hash := "h9", ts := 2 }] 1).hashMap "h1" = some ("a", 0) := by decide
+
+/-! ### ready = the maximal gap-free run; the pending nonce is the nonce right behind it -/
+
+/-- **once all lower nonces of its account are present a transaction is ready, and no transaction behind a gap is**: what
+`processDirtyAccount` moves to the ready (priority) index for an account is the run `pending, pending+1, …` of nonces held in the
+account's index, as long as it goes — every nonce of the run is held, the first nonce behind the run is not -/
+theorem C19_ready_is_maximal_gap_free_run (p : Pool) (a : String) (demand : Nat) (hnd : (noncesOf p a).Nodup) :
+    (filterReady p a demand).1 = List.range' demand (filterReady p a demand).1.length ∧
+    (∀ n ∈ (filterReady p a demand).1, n ∈ noncesOf p a) ∧
+    (filterReady p a demand).2.2 ∉ noncesOf p a := by
+  obtain ⟨h1, _, h3, h4⟩ := filterReady_spec p a demand hnd
+  exact ⟨h1, h3, h4⟩
+
+/-- **the pending nonce reported for an account is exactly the nonce after its last ready transaction**: after
+`processDirtyAccount` the stored pending nonce is the old one plus the length of the ready run, and no transaction with that nonce
+is held -/
+theorem C19_pending_nonce_is_behind_the_ready_run (p : Pool) (a : String) (hnd : (noncesOf (getPending p a).1 a).Nodup) :
+    KV.get (processDirty p a).pendingN a =
+      some ((getPending p a).2 + (filterReady (getPending p a).1 a (getPending p a).2).1.length) ∧
+    (getPending p a).2 + (filterReady (getPending p a).1 a (getPending p a).2).1.length ∉ noncesOf (getPending p a).1 a := by
+  obtain ⟨_, h2, _, h4⟩ := filterReady_spec (getPending p a).1 a (getPending p a).2 hnd
+  refine ⟨?_, by rw [← h2]; exact h4⟩
+  unfold processDirty
+  simp only [KV.get_set, if_true]
+  rw [h2]
+
+/-- the hypothesis of the two theorems above is met by every pool whose nonce index is a set (the index is only ever changed by
+set insertion and filtering: `insertTxs_nidx_nodup`, `setDel_nodup`) -/
+theorem C19_ready_run_of_set_index (p : Pool) (a : String) (h : p.nidx.Nodup) :
+    (filterReady (getPending p a).1 a (getPending p a).2).1 =
+      List.range' (getPending p a).2 (filterReady (getPending p a).1 a (getPending p a).2).1.length ∧
+    KV.get (processDirty p a).pendingN a =
+      some ((getPending p a).2 + (filterReady (getPending p a).1 a (getPending p a).2).1.length) ∧
+    (getPending p a).2 + (filterReady (getPending p a).1 a (getPending p a).2).1.length ∉ noncesOf p a := by
+  have hnd : (noncesOf (getPending p a).1 a).Nodup := noncesOf_nodup _ a (by rw [getPending_nidx]; exact h)
+  obtain ⟨h1, _, _⟩ := C19_ready_is_maximal_gap_free_run (getPending p a).1 a (getPending p a).2 hnd
+  obtain ⟨h2, h3⟩ := C19_pending_nonce_is_behind_the_ready_run p a hnd
+  refine ⟨h1, h2, ?_⟩
+  rw [← noncesOf_congr (getPending_nidx p a) a]
+  exact h3
+
+/-- non-vacuity (on the fold `filterReady` runs over the account's sorted nonces): the account holds the nonces 3, 4, 6 (5 is
+missing) and nonce 3 is demanded: ready are 3 and 4, the next demanded nonce is 5, 6 is not ready -/
+example : [3, 4, 6].foldl frStep ([], [], 3) = ([3, 4], [6], 5) := by decide
 
 end Bxh.Props.C19
